@@ -206,6 +206,18 @@ def f_gs(mi):
     return alg, lambda: [alg.x], lambda: False
 
 
+def f_gs_warm(mi):
+    """Warm start exactly on the measured magnitudes (|A x0| == y) with lamb > 0: the first update still moves x."""
+    import sigpy as sp
+    n = 3
+    Am = (_A(n, 8) + 0.3j * _A(n, 9)).astype(np.complex128)
+    A = sp.linop.MatMul([n, 1], Am)
+    x0 = np.array([[1.0 + 0.5j], [0.3], [-0.7j]])
+    y = np.abs(np.asarray(A(x0.copy())))
+    alg = sp.alg.GerchbergSaxton(A, y, x0, max_iter=mi, tol=0, lamb=0.1)
+    return alg, lambda: [alg.x], lambda: False
+
+
 FACTORIES = {
     "PowerMethod": f_power,
     "GradientMethod": lambda mi: f_gm(mi, False, "l1"),
@@ -223,6 +235,7 @@ FACTORIES = {
     "NewtonsMethod": f_newton,
     "NewtonsMethod.backtracking": f_newton_bt,
     "GerchbergSaxton": f_gs,
+    "GerchbergSaxton.warm": f_gs_warm,
 }
 
 
@@ -299,7 +312,7 @@ def gen_cases(tier, seed):
                 for fc in ("l2", "l1"):
                     cases.append(dict(kind="early-alg", solver="pdhg", prox=prox, sigma=sigma, theta=theta, fc=fc))
     for name in ("ConjugateGradient", "ConjugateGradient.illconditioned", "NewtonsMethod", "NewtonsMethod.backtracking", "GradientMethod", "GradientMethod.accel.box", "GradientMethod.plain",
-                 "AltMin", "ADMM", "AugmentedLagrangianMethod", "GerchbergSaxton", "PowerMethod"):
+                 "AltMin", "ADMM", "AugmentedLagrangianMethod", "GerchbergSaxton", "GerchbergSaxton.warm", "PowerMethod"):
         cases.append(dict(kind="early-alg", solver=name))
     for name in sorted(APPS):
         cases.append(dict(kind="early-app", app=name))
